@@ -90,9 +90,33 @@ func unmarshalJSONRequest(b []byte, m *rscp.Message) error {
 		m.DataType = m.Tag.DataType()
 		return nil
 	}
-	// use Message default Unmarshal
-	if err := json.Unmarshal(b, m); err != nil {
+	if !isJSONObject(b) {
+		return ErrInputInvalidTuple
+	}
+	// parse object notation
+	o := struct {
+		Tag      *rscp.Tag
+		DataType *rscp.DataType
+		Value    json.RawMessage
+	}{}
+	if err := json.Unmarshal(b, &o); err != nil {
 		return err
+	}
+	if o.Tag == nil {
+		return ErrInputInvalidTuple
+	}
+	m.Tag = *o.Tag
+	if o.DataType != nil {
+		m.DataType = *o.DataType
+	} else {
+		// infer data type
+		m.DataType = m.Tag.DataType()
+	}
+	if o.Value != nil {
+		// unmarshal value
+		if err := unmarshalJSONValue(o.Value, m); err != nil {
+			return err
+		}
 	}
 	return nil
 }
